@@ -192,7 +192,56 @@ func TestC12_Shared(t *testing.T) {
 		g := gen.NewExprGen(t, pool[0], "")
 		var e bx.Expr
 		hasMatches, hasQuant := false, false
-		switch rapid.IntRange(0, 4).Draw(t, "exprKind") {
+		kind := rapid.IntRange(0, 5).Draw(t, "exprKind")
+		if kind == 5 {
+			// a collection reached through a selector of 3..6 parts whose elements are maps, some of which
+			// lack the key the body asks for (alias expansion, not-present lookups, deep paths)
+			depth := rapid.IntRange(2, 5).Draw(t, "collDepth")
+			strT := uni.Scalar(uni.KString)
+			mk := func(withKey bool) *uni.Node {
+				m := &uni.Node{T: uni.MapOf(strT, uni.Iface())}
+				if withKey {
+					m.Keys, m.Elems = []*uni.Node{uni.Str("x")}, []*uni.Node{uni.InIface(uni.Int(uni.KInt, int64(rapid.IntRange(0, 1).Draw(t, "xv"))))}
+				} else {
+					m.Keys, m.Elems = []*uni.Node{uni.Str("y")}, []*uni.Node{uni.InIface(uni.Str("z"))}
+				}
+				return m
+			}
+			for i := range pool {
+				var elems []*uni.Node
+				for j := rapid.IntRange(1, 4).Draw(t, "nelem"); j > 0; j-- {
+					elems = append(elems, uni.InIface(mk(rapid.IntRange(0, 2).Draw(t, "hasKey") > 0)))
+				}
+				var cur *uni.Node = uni.List(uni.SliceOf(uni.Iface()), elems...)
+				if rapid.Bool().Draw(t, "mapColl") {
+					m := &uni.Node{T: uni.MapOf(strT, uni.Iface())}
+					for j, e := range elems {
+						m.Keys = append(m.Keys, uni.Str("k"+strconv.Itoa(j)))
+						m.Elems = append(m.Elems, e)
+					}
+					cur = m
+				}
+				for d := depth; d > 0; d-- {
+					cur = &uni.Node{T: uni.MapOf(strT, uni.Iface()), Keys: []*uni.Node{uni.Str("p" + strconv.Itoa(d))}, Elems: []*uni.Node{uni.InIface(cur)}}
+				}
+				pool[i] = cur
+			}
+			var parts []string
+			for d := 1; d <= depth; d++ {
+				parts = append(parts, "p"+strconv.Itoa(d))
+			}
+			op := []bx.Op{bx.OpEq, bx.OpNe, bx.OpEmpty, bx.OpIn}[rapid.IntRange(0, 3).Draw(t, "bodyOp")]
+			q := &bx.Quant{All: rapid.Bool().Draw(t, "all"), Sel: bx.Sel{Parts: parts}, Mode: []bx.BindMode{bx.BindValue, bx.BindBoth}[rapid.IntRange(0, 1).Draw(t, "mode")],
+				Index: "i", Value: "v", Body: &bx.Match{Sel: bx.Sel{Parts: []string{"v", "x"}}, Op: op, Lit: "1"}}
+			if q.Mode == bx.BindValue {
+				q.Index = ""
+			}
+			e = q
+			hasQuant = true
+			g = gen.NewExprGen(t, pool[0], "")
+		}
+		switch kind {
+		case 5:
 		case 0, 1:
 			m := g.Match()
 			m.Op = []bx.Op{bx.OpMatches, bx.OpNotMatches}[rapid.IntRange(0, 1).Draw(t, "mop")]
